@@ -112,6 +112,9 @@ int vp_harness_main(void) {
   ASSERT(sgn((int)vp_str_compare_cstr(&a, b.f0.f0, 0)) == ocs(sa, an, sb, z), "compare(const char*) agrees (right operand up to its first NUL)");
   ASSERT(sgn((int)vp_str_compare_n_cstr(&a, b.f0.f0, n, 0)) == ocs(sa, umin(an, n), sb, umin(z, n)), "compare_n(const char*, n) agrees");
   ASSERT((vp_str_eq_cstr(&a, b.f0.f0) != 0) == (ocs(sa, an, sb, z) == 0), "operator==(const char*) agrees");
+  /* the const char8_t* overloads (C++20) */
+  ASSERT(sgn((int)vp_str_compare_c8(&a, b.f0.f0, 0)) == ocs(sa, an, sb, z), "compare(const char8_t*) agrees");
+  ASSERT((vp_str_eq_c8(&a, b.f0.f0) != 0) == (ocs(sa, an, sb, z) == 0), "operator==(const char8_t*) agrees");
   ASSERT((vp_str_ne_cstr(&a, b.f0.f0) != 0) == (ocs(sa, an, sb, z) != 0), "operator!=(const char*) agrees");
   ASSERT(sgn((int)vp_str_compare_cstr(&a, (uint8_t *)0, 0)) == (an ? 1 : 0), "compare(nullptr) treats null as empty");
   /* case-insensitive family */
